@@ -35,13 +35,22 @@ META = {
         "(outside the intended API, correspondence still checked): two VarConstraints with the same name but "
         "different constraints, and a VarConstraint whose own constraint mentions the same name. "
         "isa() does not support Annotated hints (raises ValueError): only the conversion is compared there. "
-        "Custom constraint subclasses of dialects other than builtin.ArrayOfConstraint are not modelled."
+        "Custom constraint subclasses of dialects other than builtin.ArrayOfConstraint are not modelled. "
+        "History independence (constraint objects shared between trees: acceptance tables and get_bases() of every "
+        "pooled object must not change over time, and sets returned by get_bases() may be modified by the caller) is "
+        "checked by the harness on the real objects only; the Lean model is a pure function of the tree, which is "
+        "exactly the behaviour the histories are compared against."
     ),
     "rule": (
         "verify: (declarations, constraint tree, attribute, initial context) with >=1 composite node "
         "(AnyOf/AllOf/Param/Var/ArrayOf); merge: list of alternatives given to AnyOf.get / `|` where >=1 "
         "relax step or flattening applies; infer: (operand constraint, attribute, result constraint) with "
-        "can_infer true; hints: (hint, attribute) with a union or generic node. Distinct = distinct protocol line."
+        "can_infer true; hints: (hint, attribute) with a union or generic node; var_equality: every pair of first/later "
+        "occurrence values from {IntAttr(0), IntegerAttr(0,t), [] (falsy), IntAttr(1), '', 'a', i32, [0], IntegerAttr(1,t)} "
+        "in 6 Pair/ArrayOf/AllOf/AnyOf shapes x 3 declared constraints; shared_histories: operation sequences "
+        "(create leaf/AnyOf/AllOf/Param/Var/Msg/ArrayOf from pooled objects, AnyOf.get, |, &, get_bases, verify, infer, "
+        "recheck) over one pool of shared constraint objects, non-trivial = contains a composite built from pooled "
+        "objects. Distinct = distinct protocol line / operation sequence."
     ),
     "trusted_base": [
         "correspondence harness harness/props/c09.py (differential, bounded-exhaustive + random)",
@@ -823,6 +832,19 @@ def verify_disagrees(U: Universe, c: tuple, a: tuple) -> tuple[str, bool] | None
     return None
 
 
+def strip_vars(c: tuple) -> tuple:
+    k = c[0]
+    if k in ("anyOf", "allOf"):
+        return (k, tuple(strip_vars(x) for x in c[1]))
+    if k == "param":
+        return (k, c[1], tuple(strip_vars(x) for x in c[2]))
+    if k == "var":
+        return strip_vars(c[2])
+    if k in ("msg", "tvar", "arrayOf"):
+        return (k, c[1], strip_vars(c[2]))
+    return c
+
+
 def shrink_verify(U: Universe, c: tuple, a: tuple) -> tuple[tuple, tuple]:
     for _ in range(200):
         for c2, a2 in children_pairs(c, a):
@@ -858,7 +880,13 @@ def check_verify(ctx: core.Ctx, U: Universe, batch: Batch, c: tuple, cr: Any, a:
             sig = ("raises instead of accepting/rejecting" if d[0].startswith("raise")
                    else "accepts an attribute its definition rejects" if not d[1]
                    else "rejects an attribute its definition accepts")
-            ctx.fail(f"xdsl.irdl.constraints.{REAL_NAME[c2[0]]}.verify", sig,
+            who = REAL_NAME[c2[0]]
+            if var_decls(c2) and verify_disagrees(U, strip_vars(c2), a2) is None:
+                # the same tree without its variables behaves: the variable bookkeeping is at fault
+                who = "VarConstraint"
+                if not d[1] and not d[0].startswith("raise"):
+                    sig = "occurrences of one constraint variable are accepted although they are not equal"
+            ctx.fail(f"xdsl.irdl.constraints.{who}.verify", sig,
                      {"kind": "verify", "c": ser_c(c2), "a": ser_a(a2), "ctx": "0", "readable": readable(U, c2, a2)},
                      f"verify gives `{d[0]}`, the definition {'accepts' if d[1] else 'rejects'} the attribute",
                      d[0], "accept" if d[1] else "reject")
@@ -963,6 +991,416 @@ def run_verify_exhaustive(ctx: core.Ctx, U: Universe, batch: Batch, g: Gen, deep
         ctx.count("verify.exhaustive_constraints")
         for a in pool:
             check_verify(ctx, U, batch, c, cr, a, {}, well_declared([c]))
+
+
+def falsy_and_truthy(g: Gen) -> tuple[list[tuple], list[tuple]]:
+    """attributes whose Python truth value is False (IntAttr(0), IntegerAttr(0, t), empty ArrayAttr) and
+    ordinary ones, incl. the empty StringAttr"""
+    i1, i32 = g.types[0], g.types[1]
+    falsy = [g.I(0), g.P("IntegerAttr", g.I(0), i32), g.P("IntegerAttr", g.I(0), i1), g.A()]
+    truthy = [g.I(1), g.S(""), g.S("a"), i32, g.A(g.I(0)), g.P("IntegerAttr", g.I(1), i32)]
+    return falsy, truthy
+
+
+def run_var_equality(ctx: core.Ctx, U: Universe, batch: Batch, g: Gen) -> None:
+    """'constraint variables require all occurrences to be equal', with every combination of falsy and
+    ordinary attributes at the first and at the later occurrences"""
+    n = U.by_name
+    falsy, truthy = falsy_and_truthy(g)
+    vals = falsy + truthy
+    for a in falsy:
+        if bool(U.dec_attr(a)):
+            raise core.InfraError(f"attribute expected to be falsy is truthy: {a}")
+    inner = [("any",), ("base", n["Attribute"]), ("anyOf", (("base", n["IntAttr"]), ("base", n["IntegerAttr"]), ("base", n["ArrayAttr"]),
+                                                         ("base", n["StringAttr"]), ("base", n["IntegerType"])))]
+    P = g.P
+    for d in inner:
+        T = ("var", 0, d)
+        shapes = [
+            (("param", n["Pair"], (T, T)), lambda x, y: P("Pair", x, y)),
+            (("param", n["Pair"], (T, ("param", n["Box"], (T,)))), lambda x, y: P("Pair", x, P("Box", y))),
+            (("arrayOf", U.array, T), lambda x, y: g.A(x, y)),
+            (("arrayOf", U.array, T), lambda x, y: g.A(x, x, y)),
+            (("param", n["Pair"], (("msg", 0, T), ("allOf", (T, ("any",))))), lambda x, y: P("Pair", x, y)),
+            (("param", n["Pair"], (("anyOf", (T, ("base", n["Nil"]))), T)), lambda x, y: P("Pair", x, y)),
+        ]
+        for c, mk in shapes:
+            cr = try_build(U, c, batch, ctx)
+            if cr is None:
+                continue
+            for x in vals:
+                for y in vals:
+                    ctx.count("verify.var_equality_cases")
+                    if x in falsy and x != y:
+                        ctx.count("verify.var_equality_falsy_first_unequal")
+                    check_verify(ctx, U, batch, c, cr, mk(x, y), {}, True)
+
+
+# ---- shared sub-constraint objects: histories ----------------------------------------------------------
+
+class Shared:
+    """A pool of real constraint objects that are reused (the very same Python objects) as children of
+    later constraints and as arguments of AnyOf.get / `|` / `&`, with verify / get_bases / infer calls
+    interleaved.  What a constraint accepts and what get_bases() returns must not depend on what was
+    done, before or after, with other constraints sharing its sub-constraint objects."""
+
+    def __init__(self, U: Universe, attrs: list[tuple]):
+        self.U = U
+        self.attrs = attrs
+        self.reals = [U.dec_attr(a) for a in attrs]
+        self.node: list[Any] = []      # real object or None (construction raised)
+        self.ast: list[Any] = []       # AST of the node (None if not constructed)
+        self.expect: list[Any] = []    # AST whose declarative meaning the node must have
+        self.table: list[Any] = []     # acceptance on self.attrs at creation
+        self.bases: list[Any] = []     # get_bases() at creation
+        self.next_var = 0
+        self.problems: list[dict] = []
+        self.lines: list[tuple[str, str]] = []   # (protocol line, impl observation)
+
+    # -- observations
+    def accept_row(self, cr: Any) -> list:
+        return [safe_verifies(cr, ar) for ar in self.reals]
+
+    def bases_of(self, cr: Any) -> Any:
+        b = cr.get_bases()
+        return None if b is None else frozenset(self.U.cid.get(t, -1) for t in b)
+
+    def problem(self, site: str, sig: str, text: str, **kw: Any) -> None:
+        self.problems.append(dict(site=site, sig=sig, text=text, **kw))
+
+    # -- one operation; `op` is JSON-able; ops whose operands do not exist are skipped (for shrinking)
+    def apply(self, op: list) -> None:
+        from xdsl.irdl import (AllOf, AnyOf, AttrSetConstraint, MessageConstraint, ParamAttrConstraint, VarConstraint)
+        from xdsl.utils.exceptions import PyRDLError
+
+        U = self.U
+        k = op[0]
+        if k == "hole":   # a creating operation removed by shrinking: keeps the numbering of later nodes
+            self._push(None, None, None)
+            return
+        ids = [i for i in (op[1] if k in ("anyOf", "allOf", "get") else op[2] if k == "param" else
+                           [op[2]] if k in ("var", "msg") else [op[1]] if k in ("arrayOf", "bases", "verify", "infer", "canon") else
+                           [op[1], op[2]] if k in ("or", "and") else [])]
+        creates = k in ("leaf", "anyOf", "allOf", "param", "var", "msg", "arrayOf", "get", "or", "and")
+        if any(i >= len(self.node) or self.node[i] is None for i in ids):
+            if creates:
+                self._push(None, None, None)
+            return
+        kids = [self.node[i] for i in ids]
+        kast = [self.ast[i] for i in ids]
+        try:
+            if k == "leaf":
+                ast = parse_c(op[1])
+                self._push(U.build_c(ast), ast, ast)
+            elif k == "anyOf":
+                self._push(AnyOf(tuple(kids)), ("anyOf", tuple(kast)), ("anyOf", tuple(kast)))
+            elif k == "allOf":
+                self._push(AllOf(tuple(kids)), ("allOf", tuple(kast)), ("allOf", tuple(kast)))
+            elif k == "param":
+                ast = ("param", op[1], tuple(kast))
+                self._push(ParamAttrConstraint(U.classes[op[1]], tuple(kids)), ast, ast)
+            elif k == "var":
+                ast = ("var", op[1], kast[0])
+                self._push(VarConstraint(f"T{op[1]}", kids[0]), ast, ast)
+            elif k == "msg":
+                ast = ("msg", op[1], kast[0])
+                self._push(MessageConstraint(kids[0], f"m{op[1]}"), ast, ast)
+            elif k == "arrayOf":
+                ast = ("arrayOf", U.array, kast[0])
+                self._push(U.b.ArrayOfConstraint(kids[0]), ast, ast)
+            elif k == "get":
+                r = AnyOf.get(*kids)
+                self._push(r, U.enc_c(r), ("anyOf", tuple(kast)))
+            elif k == "or":
+                r = kids[0] | kids[1]
+                self._push(r, U.enc_c(r), ("anyOf", tuple(kast)))
+            elif k == "and":
+                r = kids[0] & kids[1]
+                self._push(r, U.enc_c(r), ("allOf", tuple(kast)))
+            elif k == "bases":
+                i = ids[0]
+                now = self.bases_of(kids[0])
+                self.lines.append(("bases " + ser_c(self.ast[i]), "none" if now is None else "some" + "".join(f" {x}" for x in sorted(now))))
+                if now != self.bases[i]:
+                    self.problem(f"xdsl.irdl.constraints.{REAL_NAME[self.ast[i][0]]}.get_bases",
+                                 "get_bases() of an existing constraint changed after operations on other constraints",
+                                 f"get_bases() of node {i} was {fmt_bases(U, self.bases[i])}, is now {fmt_bases(U, now)}", node=i)
+            elif k == "verify":
+                i, j = ids[0], op[2]
+                got = safe_verifies(kids[0], self.reals[j])
+                if got is not None:
+                    self.lines.append((f"verify 0 {ser_c(self.ast[i])} {ser_a(self.attrs[j])}", None if got else "fail"))
+                if got != self.table[i][j]:
+                    self.problem(f"xdsl.irdl.constraints.{REAL_NAME[self.ast[i][0]]}.verify",
+                                 "acceptance by an existing constraint changed after operations on other constraints",
+                                 f"node {i} on {self.reals[j]}: was {self.table[i][j]}, is now {got}", node=i)
+            elif k == "infer":
+                from xdsl.irdl import ConstraintContext
+                cx = ConstraintContext()
+                if kids[0].can_infer(cx.attr_variables):
+                    try:
+                        kids[0].infer(cx)
+                    except Exception:  # noqa: BLE001  (class invariants, arity: checked in the infer phase)
+                        pass
+        except (PyRDLError, ValueError):
+            if creates:
+                self._push(None, None, None)
+        except Unsupported:
+            if creates:
+                self._push(None, None, None)
+
+    def _push(self, real: Any, ast: Any, expect: Any) -> None:
+        U = self.U
+        self.node.append(real)
+        self.ast.append(ast)
+        self.expect.append(expect)
+        if real is None:
+            self.table.append(None)
+            self.bases.append(None)
+            return
+        row = self.accept_row(real)
+        self.table.append(row)
+        self.bases.append(self.bases_of(real))
+        i = len(self.node) - 1
+        # at creation: the node means what its (shared) parts mean
+        if well_declared([expect]) and well_declared([ast]):
+            for j, a in enumerate(self.attrs):
+                if row[j] is None:
+                    continue
+                want = bool(ref_sols(U, expect, a))
+                if row[j] != want:
+                    self.problem(f"xdsl.irdl.constraints.{REAL_NAME[ast[0]]}.verify",
+                                 ("rejects an attribute its definition accepts" if want else "accepts an attribute its definition rejects")
+                                 + " (constraint built from shared sub-constraint objects after other operations on them)",
+                                 f"node {i} = {real!r} on {self.reals[j]}: verifies={row[j]}, definition says {want}", node=i)
+                    break
+        b = self.bases[i]
+        if b is not None:
+            for j, a in enumerate(self.attrs):
+                if row[j] and a[1] not in b:
+                    self.problem(f"xdsl.irdl.constraints.{REAL_NAME[ast[0]]}.get_bases", "accepted attribute's class not among get_bases()",
+                                 f"node {i} = {real!r} accepts {self.reals[j]} but get_bases() = {fmt_bases(U, b)}", node=i)
+                    break
+
+    def recheck(self) -> None:
+        """the fixed acceptance table and get_bases() of every pooled node, against creation time;
+        returned base sets must not be shared between constraints (poisoning a returned set must not
+        change what any constraint reports afterwards)"""
+        U = self.U
+        for i, real in enumerate(self.node):
+            if real is None:
+                continue
+            row = self.accept_row(real)
+            if row != self.table[i]:
+                j = next(j for j in range(len(row)) if row[j] != self.table[i][j])
+                self.problem(f"xdsl.irdl.constraints.{REAL_NAME[self.ast[i][0]]}.verify",
+                             "acceptance by an existing constraint changed after operations on other constraints",
+                             f"node {i} = {real!r} on {self.reals[j]}: was {self.table[i][j]}, is now {row[j]}", node=i)
+            now = self.bases_of(real)
+            if now != self.bases[i]:
+                self.problem(f"xdsl.irdl.constraints.{REAL_NAME[self.ast[i][0]]}.get_bases",
+                             "get_bases() of an existing constraint changed after operations on other constraints",
+                             f"get_bases() of node {i} = {real!r} was {fmt_bases(U, self.bases[i])}, is now {fmt_bases(U, now)}", node=i)
+
+    def alias_check(self) -> None:
+        """a caller may do what it likes with a returned set (AllOf.get_bases itself narrows one in place)"""
+        U = self.U
+        for i, real in enumerate(self.node):
+            if real is None:
+                continue
+            b = real.get_bases()
+            if b is None:
+                continue
+            b.clear()
+            b.add(type(None))
+        for i, real in enumerate(self.node):
+            if real is None:
+                continue
+            now = self.bases_of(real)
+            if now != self.bases[i]:
+                self.problem(f"xdsl.irdl.constraints.{REAL_NAME[self.ast[i][0]]}.get_bases",
+                             "get_bases() returns a set object shared with internal state or with another constraint",
+                             f"after callers modified the sets returned by get_bases(), node {i} = {real!r} reports {fmt_bases(U, now)} instead of {fmt_bases(U, self.bases[i])}", node=i)
+                break
+
+
+CREATING = ("leaf", "anyOf", "allOf", "param", "var", "msg", "arrayOf", "get", "or", "and", "hole")
+
+
+def fmt_bases(U: Universe, b: Any) -> str:
+    return "None" if b is None else "{" + ", ".join(U.names[x] if 0 <= x < len(U.names) else "?" for x in sorted(b)) + "}"
+
+
+def run_history(U: Universe, attrs: list[tuple], ops: list, final_alias: bool) -> Shared:
+    sh = Shared(U, attrs)
+    for op in ops:
+        if op[0] == "recheck":
+            sh.recheck()
+        else:
+            sh.apply(op)
+    sh.recheck()
+    if final_alias:
+        sh.alias_check()
+    return sh
+
+
+def gen_history(U: Universe, g: Gen, r: Any, n_ops: int, n_attrs: int) -> list:
+    nm = U.by_name
+    ops: list = []
+    count = 0          # number of node slots so far
+    kinds: list[str] = []
+    next_var = 0
+
+    def pick() -> int:
+        # prefer recently created and wrapper nodes: sharing happens through them
+        if count and r.random() < 0.5:
+            return r.randrange(max(0, count - 6), count)
+        return r.randrange(count)
+
+    focus = [nm[x] for x in ("IntegerType", "IndexType", "StringAttr", "IntAttr", "Float32Type", "Pair", "Box", "IntegerAttr", "ArrayAttr", "Nil")]
+    for _ in range(n_ops):
+        q = r.random()
+        if count < 4 or q < 0.22:
+            k = r.random()
+            if k < 0.6:
+                ast = ("base", r.choice(focus) if r.random() < 0.8 else r.randrange(len(U.classes)))
+            elif k < 0.85:
+                ast = ("eq", g.attr(1))
+            else:
+                ast = g.leaf_c({})
+            ops.append(["leaf", ser_c(ast)]); kinds.append("leaf"); count += 1
+        elif q < 0.34:
+            ops.append(["anyOf", [pick() for _ in range(r.randint(2, 3))]]); kinds.append("anyOf"); count += 1
+        elif q < 0.44:
+            ops.append(["allOf", [pick() for _ in range(r.randint(1, 3))]]); kinds.append("allOf"); count += 1
+        elif q < 0.52:
+            cid = nm[r.choice(["Pair", "Box", "Pair", "SubA"])]
+            ops.append(["param", cid, [pick() for _ in range(U.nparams[cid])]]); kinds.append("param"); count += 1
+        elif q < 0.62:
+            ops.append(["var", next_var, pick()]); next_var += 1; kinds.append("var"); count += 1
+        elif q < 0.67:
+            ops.append(["msg", r.randint(0, 3), pick()]); kinds.append("msg"); count += 1
+        elif q < 0.70:
+            ops.append(["arrayOf", pick()]); kinds.append("arrayOf"); count += 1
+        elif q < 0.80:
+            ops.append(["get", [pick() for _ in range(r.randint(2, 3))]]); kinds.append("get"); count += 1
+        elif q < 0.85:
+            ops.append(["or", pick(), pick()]); kinds.append("or"); count += 1
+        elif q < 0.89:
+            ops.append(["and", pick(), pick()]); kinds.append("and"); count += 1
+        elif q < 0.93:
+            ops.append(["bases", pick()])
+        elif q < 0.97:
+            ops.append(["verify", pick(), r.randrange(n_attrs)])
+        elif q < 0.99:
+            ops.append(["infer", pick()])
+        else:
+            ops.append(["recheck"])
+    return ops
+
+
+def history_attrs(U: Universe, g: Gen) -> list[tuple]:
+    falsy, truthy = falsy_and_truthy(g)
+    P = g.P
+    i32, index, f32 = g.types[1], g.types[3], g.types[4]
+    return falsy + truthy + [g.types[0], index, f32, P("Nil"), P("Box", i32), P("Box", index), P("Pair", i32, i32), P("Pair", i32, index),
+                             P("Pair", g.I(0), g.I(0)), P("Pair", g.I(0), g.I(1)), P("SubA", i32), P("SubB", g.S("a")), g.A(i32, index),
+                             P("IntegerAttr", g.I(5), index), P("UnitAttr"), P("NoneAttr")]
+
+
+def fixed_histories(U: Universe) -> list[list]:
+    """small hand-written interleavings: a wrapper (Var/Msg) of a union used first inside an
+    intersection whose bases are queried, then as an alternative of a new union"""
+    nm = U.by_name
+    out = []
+    for wrap in ("var", "msg", None):
+        for narrow in ("IntegerType", "IndexType", "StringAttr"):
+            ops: list = [["leaf", f"base {nm['IntegerType']}"], ["leaf", f"base {nm['IndexType']}"], ["leaf", f"base {nm['StringAttr']}"],
+                         ["anyOf", [0, 1]]]
+            w = 3
+            if wrap == "var":
+                ops.append(["var", 0, 3]); w = 4
+            elif wrap == "msg":
+                ops.append(["msg", 0, 3]); w = 4
+            ops.append(["get", [w, 2]])
+            ops.append(["leaf", f"base {nm[narrow]}"])
+            k = len([o for o in ops if o[0] not in ("bases", "verify")]) - 1
+            ops.append(["allOf", [w, k]])
+            ops.append(["bases", k + 1])
+            ops.append(["leaf", f"base {nm['Float32Type']}"])
+            ops.append(["get", [k + 1, k + 2]])
+            ops.append(["get", [w, 2]])
+            ops.append(["anyOf", [2, w]])
+            ops.append(["and", w, k])
+            ops.append(["or", w, 2])
+            out.append(ops)
+    return out
+
+
+def run_shared(ctx: core.Ctx, U: Universe, batch: Batch, g: Gen, n_histories: int, n_ops: int) -> None:
+    r = ctx.rng
+    attrs = history_attrs(U, g)
+    hists = fixed_histories(U) + [gen_history(U, g, r, r.randint(8, n_ops), len(attrs)) for _ in range(n_histories)]
+    for hi, ops in enumerate(hists):
+        if ctx.time_left() < 20:
+            break
+        alias = hi % 2 == 0
+        sh = run_history(U, attrs, ops, alias)
+        ctx.ev()
+        ctx.count("shared.histories")
+        ctx.count("shared.ops", len(ops))
+        ctx.count("shared.nodes", sum(1 for x in sh.node if x is not None))
+        ctx.count("shared.nodes_not_constructible", sum(1 for x in sh.node if x is None))
+        for o in ops:
+            ctx.count("shared.op." + o[0])
+        if any(o[0] in ("get", "or", "and", "anyOf", "allOf") for o in ops):
+            ctx.nt(json.dumps(ops))
+        for line, obs in sh.lines:
+            if obs is None:   # accepted: the model reports the bindings too; compare acceptance only via a bases/fail line
+                continue
+            batch.add(line, obs, {"kind": "history-line", "ops": ops})
+        seen_sig = set()
+        for pr in sh.problems:
+            key = (pr["site"], pr["sig"])
+            if key in seen_sig:
+                continue
+            seen_sig.add(key)
+
+            def masked(keep: list) -> list:
+                ks = set(keep)
+                return [o if i in ks else ["hole"] for i, o in enumerate(ops) if i in ks or o[0] in CREATING]
+
+            def still(keep: list, key: tuple = key, alias: bool = alias) -> bool:
+                s2 = run_history(U, attrs, masked(keep), alias)
+                return any((q["site"], q["sig"]) == key for q in s2.problems)
+
+            keep = core.shrink_list(list(range(len(ops))), still, max_steps=300) if len(ops) > 6 else list(range(len(ops)))
+            small = masked(keep)
+            while small and small[-1] == ["hole"]:
+                small.pop()
+            s2 = run_history(U, attrs, small, alias)
+            texts = [q["text"] for q in s2.problems if (q["site"], q["sig"]) == key] or [pr["text"]]
+            ctx.fail(pr["site"], pr["sig"],
+                     {"kind": "history", "ops": small, "alias_check": alias, "readable": describe_history(U, attrs, small)},
+                     texts[0], texts[:3], "acceptance and get_bases() of every constraint independent of the history")
+
+
+def describe_history(U: Universe, attrs: list[tuple], ops: list) -> list[str]:
+    sh = Shared(U, attrs)
+    out = []
+    for op in ops:
+        n0 = len(sh.node)
+        if op[0] == "recheck":
+            sh.recheck(); out.append("recheck all nodes")
+            continue
+        sh.apply(op)
+        if op[0] == "hole":
+            continue
+        if len(sh.node) > n0:
+            out.append(f"n{n0} = {op[0]}{op[1:]} -> {sh.node[n0]!r}")
+        else:
+            out.append(f"{op[0]}{op[1:]}")
+    return out
 
 
 # ---- simplification / merging --------------------------------------------------------------------
@@ -1463,6 +1901,8 @@ def run(ctx: core.Ctx) -> None:
     ctx.count("universe.final", sum(U.final))
     plan = [
         ("verify_exhaustive", lambda b: run_verify_exhaustive(ctx, U, b, g, deep=not quick)),
+        ("var_equality", lambda b: run_var_equality(ctx, U, b, g)),
+        ("shared_histories", lambda b: run_shared(ctx, U, b, g, 500 if quick else 8000, 40)),
         ("verify_random", lambda b: run_verify_random(ctx, U, b, g, 2500 if quick else 60000, 8)),
         ("merge", lambda b: run_merge(ctx, U, b, g, 1500 if quick else 30000, exhaustive=True)),
         ("infer", lambda b: run_infer(ctx, U, b, g, 1500 if quick else 30000, exhaustive=True)),
@@ -1502,12 +1942,21 @@ def replay(ctx: core.Ctx, body: dict) -> int:
         print("implementation:", body.get("impl_observation"))
         print("lean model    :", model)
         inner = case.get("case") or {}
-        if inner.get("kind") not in ("verify", "merge", "infer", "isa", "pget"):
+        if inner.get("kind") not in ("verify", "merge", "infer", "isa", "pget", "history"):
             return 0
         case = inner
     kind = case["kind"]
     bad = False
-    if kind == "verify":
+    if kind == "history":
+        g = Gen(U, ctx.rng)
+        attrs = history_attrs(U, g)
+        for l in describe_history(U, attrs, case["ops"]):
+            print("  ", l)
+        sh = run_history(U, attrs, case["ops"], bool(case.get("alias_check")))
+        for pr in sh.problems:
+            print("PROBLEM", pr["site"], "|", pr["sig"], "|", pr["text"])
+        bad = bool(sh.problems)
+    elif kind == "verify":
         c, a, binding = parse_c(case["c"]), parse_a(case["a"]), parse_ctx(case.get("ctx", "0"))
         cr = U.build_c(c)
         obs, _ = impl_verify(U, cr, a, binding)
